@@ -196,10 +196,44 @@ def run_case(case, ctx):
                     continue
                 if not doc.body.get_tables():
                     doc.body.append(Table("T1", width=1, height=1))
-                doc.set_table_displayed(0, op["flag"])
+                if op.get("share"):
+                    # several sheets sharing one table style (a duplicated sheet, or a style made by an earlier call)
+                    while len(doc.body.get_tables()) < 3:
+                        doc.body.append(Table(f"TS{len(doc.body.get_tables())}", width=1, height=1))
+                    if op["share"] == "made":
+                        doc.set_table_displayed(0, True)
+                    tabs = doc.body.get_tables()
+                    for t_ in tabs[1:3]:
+                        t_.style = tabs[0].style
+                    labels.add("shared-table-style")
+
+                def displayed_map():
+                    root = odfread.parse(doc.content.serialize())
+                    sroot = odfread.parse(doc.styles.serialize())
+                    out = []
+                    for t_ in root.iter(odfread.T_TABLE):
+                        if t_.getparent().tag == odfread.q("table:table-cell"):
+                            continue
+                        sn = t_.get(odfread.q("table:style-name"))
+                        disp = "true"
+                        for r_ in (root, sroot):
+                            for st_ in r_.iter(odfread.q("style:style")):
+                                if st_.get(odfread.q("style:name")) == sn and st_.get(odfread.q("style:family")) == "table":
+                                    for tp in st_.iter(odfread.q("style:table-properties")):
+                                        disp = tp.get(odfread.q("table:display"), "true")
+                        out.append(disp == "true")
+                    return out
+
+                before_disp = displayed_map()
+                which = op.get("which", 0) % max(len(before_disp), 1)
+                doc.set_table_displayed(which, op["flag"])
                 no_duplicates("set_table_displayed")
-                ctx.check(doc.get_table_displayed(0) == op["flag"], ("C13", "set_table_displayed", "readback"),
-                          f"get_table_displayed = {doc.get_table_displayed(0)}", case)
+                ctx.check(doc.get_table_displayed(which) == op["flag"], ("C13", "set_table_displayed", "readback"),
+                          f"get_table_displayed = {doc.get_table_displayed(which)}", case)
+                after_disp = displayed_map()
+                want_disp = [op["flag"] if i == which else d for i, d in enumerate(before_disp)]
+                ctx.check(after_disp == want_disp, ("C13", "set_table_displayed", "other-tables-changed"),
+                          f"set_table_displayed({which}, {op['flag']}): display flags of the sheets {before_disp} -> {after_disp}, expected {want_disp}", case)
                 inserted = [i for i in inserted if i[0] != "table" or True]
             elif k == "delete_styles":
                 doc.delete_styles()
@@ -273,6 +307,7 @@ def run_shard(ctx):
                                "attached": st.sampled_from(["other", "other", "same"])}),
         st.fixed_dictionaries({"k": st.just("page_break")}),
         st.fixed_dictionaries({"k": st.just("table_displayed"), "flag": st.booleans()}),
+        st.fixed_dictionaries({"k": st.just("table_displayed"), "flag": st.booleans(), "share": st.sampled_from(["made", "made", "as-is"]), "which": st.integers(0, 2)}),
         st.fixed_dictionaries({"k": st.just("delete_styles")}),
         st.fixed_dictionaries({"k": st.just("merge"), "i": st.integers(0, 20)}),
         st.fixed_dictionaries({"k": st.just("reload")}),
